@@ -373,6 +373,11 @@ class C21(Mode):
                     elif op == 'prefetch':
                         for a in select(a for a in Acct).prefetch(Acct.items)[:]:
                             acc.setdefault(a.name, a)
+                    elif op == 'prefetch_tags':
+                        # the many-to-many collections of all items fetched by the prefetch loader (its own code
+                        # path, not Set.load): what was observed before must still hold or the query has to fail
+                        for i in select(i for i in Item).prefetch(Item.tags)[:]:
+                            items.setdefault(i.id, i)
                     elif op == 'items_iter':
                         o = A(st[1])
                         if o is not None:
